@@ -337,10 +337,8 @@ func (c *Ctx) irc() *ircFacts {
 		ast.Inspect(fi.Body(), func(n ast.Node) bool {
 			if as, ok := n.(*ast.AssignStmt); ok {
 				for _, l := range as.Lhs {
-					if ie, ok := ast.Unparen(l).(*ast.IndexExpr); ok {
-						if se, ok := ast.Unparen(ie.X).(*ast.SelectorExpr); ok && astx.FieldSel(fi.Info(), se) == ifor {
-							w = true
-						}
+					if ie, ok := ast.Unparen(l).(*ast.IndexExpr); ok && isFieldMap(fi.Info(), fi.Node(), ie.X, ifor) {
+						w = true
 					}
 				}
 			}
@@ -493,4 +491,17 @@ func implied(clauses [][]lit, ok func(l lit) bool) bool {
 		}
 	}
 	return false
+}
+
+// isFieldMap: e denotes the map held in field fv of some value — `x.f` itself, or a local that is defined once as `x.f`
+// (recipients := msg.InterestingFor): writing through the local writes the field's map.
+func isFieldMap(info *types.Info, root ast.Node, e ast.Expr, fv *types.Var) bool {
+	e = ast.Unparen(e)
+	if id, ok := e.(*ast.Ident); ok {
+		if d := uniqueDef(info, root, id); d != nil {
+			e = ast.Unparen(d)
+		}
+	}
+	se, ok := e.(*ast.SelectorExpr)
+	return ok && fv != nil && astx.FieldSel(info, se) == fv
 }
